@@ -12,10 +12,20 @@ REPLAY_CRATE = os.path.join(HERE, 'replay')
 
 
 def build_replay_tool():
+    """Build the replay/search tool against the tree under verification.  For /repo the crate in vf/replay is
+    used as is; for a scratch tree (VF_REPO, self-test) a copy with the path dependency rewritten is built."""
     env = dict(os.environ)
     env['CARGO_NET_OFFLINE'] = 'true'
-    p = subprocess.run(['cargo', 'build', '--offline', '--quiet'], cwd=REPLAY_CRATE, capture_output=True, text=True, env=env)
-    exe = os.path.join(REPLAY_CRATE, 'target', 'debug', 'vf_replay')
+    repo = os.environ.get('VF_REPO', '/repo')
+    crate = REPLAY_CRATE
+    if os.path.realpath(repo) != '/repo':
+        crate = os.path.join(repo, '.vf_replay')
+        if not os.path.exists(crate):
+            subprocess.check_call(['rsync', '-a', '--exclude', 'target', REPLAY_CRATE + '/', crate + '/'])
+            t = open(os.path.join(crate, 'Cargo.toml')).read().replace('path = "/repo"', 'path = "%s"' % repo)
+            open(os.path.join(crate, 'Cargo.toml'), 'w').write(t)
+    p = subprocess.run(['cargo', 'build', '--offline', '--quiet'], cwd=crate, capture_output=True, text=True, env=env)
+    exe = os.path.join(crate, 'target', 'debug', 'vf_replay')
     if p.returncode != 0 or not os.path.exists(exe):
         return None, p.stderr[-2000:]
     return exe, ''
